@@ -91,6 +91,17 @@ func (db *DB) repairCompactions() error {
 		absReplacementPath := filepath.Join(db.basePath, meta.ReplacementPath)
 
 		log.Printf("finishing compaction in %s into %s", absWritePath, absReplacementPath)
+		// the rename comes last: it takes the success flag away with it, so everything that has to be deleted must be
+		// gone before, otherwise an interrupted recovery leaves half deleted tables behind that nobody cleans up
+		for _, sstablePath := range meta.SstablePaths {
+			if sstablePath != meta.ReplacementPath {
+				err := os.RemoveAll(filepath.Join(db.basePath, sstablePath))
+				if err != nil {
+					return err
+				}
+			}
+		}
+
 		err := os.RemoveAll(absReplacementPath)
 		if err != nil {
 			return err
@@ -99,15 +110,6 @@ func (db *DB) repairCompactions() error {
 		err = os.Rename(absWritePath, absReplacementPath)
 		if err != nil {
 			return err
-		}
-
-		for _, sstablePath := range meta.SstablePaths {
-			if sstablePath != meta.ReplacementPath {
-				err := os.RemoveAll(filepath.Join(db.basePath, sstablePath))
-				if err != nil {
-					return err
-				}
-			}
 		}
 	}
 
